@@ -900,7 +900,7 @@ def padded_list_compare_to_loop(fnode, va, vb):
     function node, or None when the function does not have this shape."""
     from . import consteval
     body = [st for st in fnode.body if not (isinstance(st, ast.Expr) and isinstance(st.value, ast.Constant))]
-    if any(isinstance(n, (ast.While, ast.For)) for st in body for n in ast.walk(st)):
+    if any(isinstance(n, ast.While) for st in body for n in ast.walk(st)):
         return None
     la = lb = None
     i = 0
@@ -944,11 +944,55 @@ def padded_list_compare_to_loop(fnode, va, vb):
                 return None
             pads[lst] = l_.elts[0]
             continue
+        if ext is not None and width is None:
+            # without a width: each list is extended by (length of the other - its own length) items, a negative count adding none;
+            # after the two statements both have the longer length
+            lst, e = ext
+            other = lb if lst == la else la
+            ok = isinstance(e, ast.BinOp) and isinstance(e.op, ast.Mult)
+            if ok:
+                l_, r_ = (e.left, e.right) if isinstance(e.left, ast.List) else (e.right, e.left)
+                ok = isinstance(l_, ast.List) and len(l_.elts) == 1 and isinstance(l_.elts[0], ast.Constant) and norm(r_) == 'len(%s) - len(%s)' % (other, lst)
+            if not ok or lst in pads:
+                return None
+            pads[lst] = l_.elts[0]
+            continue
         break
     else:
         return None
     tail = rest[k:]
     if set(pads) != {la, lb}:
+        return None
+    if tail and isinstance(tail[0], ast.For):
+        # `for a, b in zip(la, lb): BODY` over the padded lists is the position loop with its items named by the loop target
+        loop = tail[0]
+        if not (norm(loop.iter) in ('zip(%s, %s)' % (la, lb),) and isinstance(loop.target, ast.Tuple) and len(loop.target.elts) == 2
+                and all(isinstance(e, ast.Name) for e in loop.target.elts) and not loop.orelse):
+            return None
+        if any(isinstance(n, ast.Name) and n.id in (la, lb) for st in loop.body + tail[1:] for n in ast.walk(st)):
+            return None
+        if any(isinstance(n, (ast.While, ast.For)) for st in loop.body + tail[1:] for n in ast.walk(st)):
+            return None
+        ta, tb = loop.target.elts[0].id, loop.target.elts[1].id
+        src_ = ('while {la} or {lb}:\n'
+                '    {ta} = {pa}\n'
+                '    {tb} = {pb}\n'
+                '    if {la}:\n'
+                '        {ta} = {la}.pop(0)\n'
+                '    if {lb}:\n'
+                '        {tb} = {lb}.pop(0)\n').format(la=la, lb=lb, ta=ta, tb=tb, pa=norm(pads[la]), pb=norm(pads[lb]))
+        w = ast.parse(src_).body[0]
+        for n in ast.walk(w):
+            if hasattr(n, 'lineno'):
+                n.lineno = n.end_lineno = loop.lineno
+        w.body = w.body + [clone(st) for st in loop.body]
+        out = clone(fnode)
+        out.body = [clone(st) for st in head] + [w] + [clone(st) for st in tail[1:]]
+        ast.fix_missing_locations(out)
+        from .core import set_parents
+        set_parents(out)
+        return out
+    if any(isinstance(n, ast.For) for st in tail for n in ast.walk(st)):
         return None
     # the tail touches the lists only by comparing one with the other
     from .core import set_parents
